@@ -61,7 +61,8 @@ impl<'a> NVArgsIterator<'a> {
 
 // the renderer over this argument source
 //@ extract src/dlt/mod.rs DltMessage::process_msg_arg_iter
-//@   sub R12 `fn process_msg_arg_iter<'a, I>( args: I, text: &mut String, ) -> Result<(), std::fmt::Error> where I: Iterator<Item = DltArg<'a>>,` => `fn nv_process_msg_arg_iter<'b>(mut args: NVArgsIterator<'b>, text: &mut String) -> Result<(), std::fmt::Error>`
+//@   sub R12 `fn process_msg_arg_iter<'a, I>( args: I, text: &mut String, ) -> Result<(), std::fmt::Error> where I: Iterator<Item = DltArg<'a>>,` => `fn process_msg_arg_iter<'b>(mut args: NVArgsIterator<'b>, text: &mut String) -> Result<(), std::fmt::Error>`
+//@   rename nv_process_msg_arg_iter
 //@   cut R11 `let mut itoa_buf = itoa::Buffer::new();`
 //@   sub R13 `for (nr_arg, arg) in args.enumerate() {` => `let mut vx_cnt: usize = 0; loop { let arg = match args.next() { Some(vx_a) => vx_a, None => { break; } }; let nr_arg = vx_cnt; if vx_cnt < usize::MAX { vx_cnt = vx_cnt + 1; }`
 //@   sub R11 `text.push(' ');` => `vx_push_char(text, ' ');`
